@@ -7,7 +7,7 @@ here so that the flavour (release / sanitised / traced) and the compiler can be
 chosen per world.  Objects are rebuilt when the command line or the content of
 any file named in the compiler's depfile changed (content hashes, not mtimes).
 """
-import hashlib, json, os, re, shlex, subprocess, sys, shutil
+import hashlib, json, os, re, shlex, subprocess, sys, shutil, threading
 from concurrent.futures import ThreadPoolExecutor
 
 REPO = os.environ.get('VERIF_REPO', '/repo')
@@ -136,8 +136,18 @@ class Config:
         self.incs = []
         self.defs = []
 
+    _cm_locks = {}
+    _cm_locks_guard = threading.Lock()
+
     def configure(self):
-        """cmake configure-only; re-run when CMake inputs changed."""
+        """cmake configure-only; re-run when CMake inputs changed.  Flavours of one (backend, shares) share the
+        configured directory, and libraries are built by several threads: one configure at a time per directory."""
+        with Config._cm_locks_guard:
+            lock = Config._cm_locks.setdefault(self.cm, threading.Lock())
+        with lock:
+            self._configure_locked()
+
+    def _configure_locked(self):
         stamp = os.path.join(self.cm, 'verif.stamp')
         inputs = [os.path.join(REPO, p) for p in
                   ('CMakeLists.txt', 'config.h.in', 'src/CMakeLists.txt',
